@@ -28,10 +28,53 @@ var c19Blocks = []struct{ name, cidr string }{
 	{"v6-doc", "2001:db8::/32"}, {"v6-6to4", "2002::/16"}, {"v6-discard", "100::/64"}, {"v6-unspecified", "::/128"},
 }
 
+// c19Registry: the IANA special-purpose registries' networks (a harness-side copy, so that no hook into
+// util/ip.go is needed). They are only a source of WITNESS networks and addresses for the relations; nothing
+// is demanded of them beyond what the property states.
+var c19Registry = []string{"10.0.0.0/8", "172.16.0.0/12", "192.168.0.0/16", "100.64.0.0/10", "198.18.0.0/15", "2001:2::/48",
+	"192.0.2.0/24", "198.51.100.0/24", "203.0.113.0/24", "2001:db8::/32", "240.0.0.0/4", "0400::/6", "0800::/5", "1000::/4", "4000::/3",
+	"6000::/3", "8000::/3", "a000::/3", "c000::/3", "e000::/4", "f000::/5", "f800::/6", "fe00::/9", "192.0.0.0/24", "2001::/23",
+	"192.31.196.0/24", "192.175.48.0/24", "2001:4:112::/48", "2620:4f:8000::/48", "192.52.193.0/24", "2001:3::/32", "2001:20::/28",
+	"0.0.0.0/8", "127.0.0.0/8", "::1/128", "2002::/16", "64:ff9b::/96", "64:ff9b:1::/48", "192.0.0.8/32", "192.0.0.9/32", "2001:1::1/128",
+	"192.0.0.10/32", "2001:1::2/128", "192.0.0.170/32", "192.0.0.171/32", "255.255.255.255/32", "100::/64", "2001::/32", "fc00::/7",
+	"fe80::/10", "169.254.0.0/16", "224.0.0.0/4", "ff00::/8", "255.0.0.0/8", "239.0.0.0/8", "192.88.99.0/24", "2001:10::/28"}
+
+func c19Table() []net.IPNet {
+	var out []net.IPNet
+	for _, s := range c19Registry {
+		if _, n, err := net.ParseCIDR(s); err == nil {
+			out = append(out, *n)
+		}
+	}
+	return out
+}
+
 var c19Public = []string{"8.8.8.8", "1.1.1.1", "1.0.0.0", "9.255.255.255", "11.0.0.0", "93.184.216.34", "100.63.255.255", "100.128.0.0",
 	"126.255.255.255", "128.0.0.0", "169.253.255.255", "169.255.0.0", "172.15.255.255", "172.32.0.0", "192.167.255.255", "192.169.0.0",
 	"198.17.255.255", "198.20.0.0", "198.51.99.255", "198.51.101.0", "203.0.112.255", "203.0.114.0", "192.0.3.0", "223.255.255.255", "151.101.1.69",
 	"2606:4700:4700::1111", "2001:4860:4860::8888", "2620:fe::fe", "2a00:1450:4001:81b::200e", "2600::1"}
+
+var c19Ctx *mon.Ctx
+
+// isRes / inter call the implementation under recover: a panic on a well-formed address or network is
+// reported as a violation of its own instead of killing the worker.
+func isRes(ip net.IP) (r bool) {
+	defer func() {
+		if p := recover(); p != nil {
+			c19Ctx.V("address-test-panics", fmt.Sprintf("IsIANAReserved(%v) [%d bytes] panics: %v", ip, len(ip), p), "", nil, nil)
+		}
+	}()
+	return util.IsIANAReserved(ip)
+}
+
+func netInter(n net.IPNet) (r bool) {
+	defer func() {
+		if p := recover(); p != nil {
+			c19Ctx.V("network-test-panics", fmt.Sprintf("IntersectsIANAReserved(%v) [address %d bytes, mask %d bytes] panics: %v", n.String(), len(n.IP), len(n.Mask), p), "", nil, nil)
+		}
+	}()
+	return util.IntersectsIANAReserved(n)
+}
 
 func lastAddr(n *net.IPNet) net.IP {
 	ip := append(net.IP{}, n.IP...)
@@ -64,7 +107,7 @@ func normIP(ip net.IP) net.IP {
 
 // c19Relations checks R1-R3 for one network; witnesses are addresses inside it.
 func c19Relations(c *mon.Ctx, n net.IPNet, witnesses []net.IP, how string) {
-	inter := util.IntersectsIANAReserved(n)
+	inter := netInter(n)
 	c.R.Count("evaluations", 1)
 	c.R.Count("relation_checks", 1)
 	ones, bits := n.Mask.Size()
@@ -72,7 +115,7 @@ func c19Relations(c *mon.Ctx, n net.IPNet, witnesses []net.IP, how string) {
 		if !n.Contains(w) {
 			continue
 		}
-		if util.IsIANAReserved(w) && !inter {
+		if isRes(w) && !inter {
 			c.V(fmt.Sprintf("contains-reserved-but-no-intersection|%s", c19BlockOf(w)), fmt.Sprintf("network %s contains the reserved address %s (%s) but IntersectsIANAReserved is false (%s)", n.String(), w, c19BlockOf(w), how), "", nil, nil)
 		}
 	}
@@ -80,16 +123,22 @@ func c19Relations(c *mon.Ctx, n net.IPNet, witnesses []net.IP, how string) {
 		for p := ones - 1; p >= 0; p-- {
 			sup := netOf(n.IP, p)
 			c.R.Count("relation_checks", 1)
-			if !util.IntersectsIANAReserved(sup) {
-				c.V("not-monotone", fmt.Sprintf("%s intersects reserved space but its super-net %s does not (%s)", n.String(), sup.String(), how), "", nil, nil)
+			if !netInter(sup) {
+				key := "not-monotone"
+				if len(n.IP) == net.IPv6len && n.IP.To4() != nil && p < 96 {
+					// the network is written in IPv4-mapped form and this super-net is a genuine IPv6 network that
+					// covers (part of) the IPv4-mapped block ::ffff:0:0/96
+					key = "not-monotone|ipv6-supernet-of-ipv4-mapped-network"
+				}
+				c.V(key, fmt.Sprintf("%s intersects reserved space but its super-net %s does not (%s)", n.String(), sup.String(), how), "", nil, nil)
 				break
 			}
 		}
 	}
 	if ones == bits {
 		c.R.Count("relation_checks", 1)
-		if inter != util.IsIANAReserved(n.IP) {
-			c.V("single-address-network", fmt.Sprintf("single-address network %s: intersects=%v but the address test says %v (%s)", n.String(), inter, util.IsIANAReserved(n.IP), how), "", nil, nil)
+		if inter != isRes(n.IP) {
+			c.V("single-address-network", fmt.Sprintf("single-address network %s: intersects=%v but the address test says %v (%s)", n.String(), inter, isRes(n.IP), how), "", nil, nil)
 		}
 	}
 }
@@ -119,17 +168,17 @@ func c19Once(c *mon.Ctx) {
 		for _, a := range addrs {
 			c.R.Count("evaluations", 1)
 			c.R.Count("address_checks", 1)
-			if !util.IsIANAReserved(a) {
+			if !isRes(a) {
 				c.V("block-address-not-reserved|"+b.name, fmt.Sprintf("%s is in %s (%s) but is not classified reserved", a, b.cidr, b.name), "", nil, nil)
 			}
 			if v4 := a.To4(); v4 != nil {
-				if util.IsIANAReserved(v4) != util.IsIANAReserved(v4.To16()) {
+				if isRes(v4) != isRes(v4.To16()) {
 					c.V("byte-form-disagrees|"+b.name, fmt.Sprintf("%s: 4-byte and IPv4-mapped 16-byte forms are classified differently", a), "", nil, nil)
 				}
 			}
 		}
 		c.R.Distinct("blocks", b.name)
-		c.R.Sample(8, map[string]any{"block": b.cidr, "first": n.IP.String(), "last": lastAddr(n).String(), "first_reserved": util.IsIANAReserved(n.IP), "block_intersects": util.IntersectsIANAReserved(*n)})
+		c.R.Sample(8, map[string]any{"block": b.cidr, "first": n.IP.String(), "last": lastAddr(n).String(), "first_reserved": isRes(n.IP), "block_intersects": netInter(*n)})
 		// every prefix length: super-nets of the block, the block, sub-nets at both ends
 		ones, bits := n.Mask.Size()
 		for p := 0; p <= bits; p++ {
@@ -143,7 +192,7 @@ func c19Once(c *mon.Ctx) {
 					// the same network written with 16-byte address and mask
 					m16 := net.CIDRMask(96+p, 128)
 					n16 := net.IPNet{IP: nn.IP.To16(), Mask: m16}
-					if util.IntersectsIANAReserved(n16) != util.IntersectsIANAReserved(nn) {
+					if netInter(n16) != netInter(nn) {
 						c.V("network-byte-form-disagrees", fmt.Sprintf("network %s: 4-byte and 16-byte forms give different answers", nn.String()), "", nil, nil)
 					}
 				}
@@ -154,21 +203,21 @@ func c19Once(c *mon.Ctx) {
 		ip := net.ParseIP(s)
 		c.R.Count("evaluations", 1)
 		c.R.Count("address_checks", 1)
-		if util.IsIANAReserved(ip) || util.IsIANAReserved(normIP(ip)) {
+		if isRes(ip) || isRes(normIP(ip)) {
 			c.V("public-address-reserved|"+s, s+" is a public address but is classified reserved", "", nil, nil)
 		}
 		c19Relations(c, netOf(normIP(ip), 8*len(normIP(ip))), []net.IP{ip}, "public host network")
 	}
-	// table entries (hook): evidence + their own prefix sweeps
-	tbl := util.VerifReservedNetworks()
-	c.R.Note("reserved_table_entries", len(tbl))
+	// special-registry networks (harness-side list): their own prefix sweeps and interior witnesses
+	tbl := c19Table()
+	c.R.Note("witness_networks", len(tbl))
 	for i := range tbl {
 		n := tbl[i]
 		ones, bits := n.Mask.Size()
 		for p := 0; p <= ones; p++ {
 			nn := netOf(normIP(n.IP), p)
 			_ = bits
-			c19Relations(c, nn, []net.IP{n.IP, lastAddr(&n)}, "super-nets of table entry "+n.String())
+			c19Relations(c, nn, []net.IP{n.IP, lastAddr(&n)}, "super-nets of special-registry block "+n.String())
 		}
 		// single-address networks at the first, last and seeded interior addresses of every table entry:
 		// the network answer and the address answer must be the same (and 4-byte / 16-byte forms agree)
@@ -177,9 +226,13 @@ func c19Once(c *mon.Ctx) {
 			pts = append(pts, normIP(randIn(rng, &n)))
 		}
 		for _, a := range pts {
-			c19Relations(c, netOf(a, 8*len(a)), []net.IP{a}, "single-address network inside table entry "+n.String())
+			c19Relations(c, netOf(a, 8*len(a)), []net.IP{a}, "single-address network inside special-registry block "+n.String())
+			if len(a) == 4 { // the same host network written as ::ffff:a.b.c.d/128
+				m := net.IPNet{IP: a.To16(), Mask: net.CIDRMask(128, 128)}
+				c19Relations(c, m, []net.IP{a.To16()}, "IPv4-mapped single-address network inside special-registry block "+n.String())
+			}
 			c.R.Count("address_checks", 1)
-			if len(a) == 4 && util.IsIANAReserved(a) != util.IsIANAReserved(a.To16()) {
+			if len(a) == 4 && isRes(a) != isRes(a.To16()) {
 				c.V("byte-form-disagrees|table", fmt.Sprintf("%s: 4-byte and IPv4-mapped forms are classified differently", a), "", nil, nil)
 			}
 		}
@@ -241,11 +294,14 @@ func c19RandAddr(rng *rand.Rand) net.IP {
 func init() {
 	mon.Register(&mon.Check{
 		ID:          "C19",
-		Rule:        "(a) every reference block of the property text: first, last and seeded interior addresses must be reserved, public addresses must not, 4-byte and IPv4-mapped forms must agree; (b) relations on the implementation for every prefix length of every super-/sub-net of every block and table entry (exhaustive sweep) and for seeded random networks: contains-a-reserved-address => intersects; intersects => every super-net intersects; /32 and /128 networks == address test; 4-byte vs 16-byte network forms agree; (c) generated certificates with chosen iPAddress SANs, IP common names, reverse-DNS names and permitted name-constraint subtrees: the four lints must report exactly what the address / network tests say. evaluations = address, relation and lint judgements; distinct_nontrivial = distinct networks + addresses judged.",
+		Rule:        "(a) every reference block of the property text: first, last and seeded interior addresses must be reserved, public addresses must not, 4-byte and IPv4-mapped forms must agree; (b) relations on the implementation for every prefix length of every super-/sub-net of every block and of every IANA special-registry network (harness-side list; exhaustive sweep) and for seeded random networks: contains-a-reserved-address => intersects; intersects => every super-net intersects; /32 and /128 networks == address test; 4-byte vs 16-byte network forms agree; (c) generated certificates with chosen iPAddress SANs, IP common names, reverse-DNS names and permitted name-constraint subtrees: the four lints must report exactly what the address / network tests say. evaluations = address, relation and lint judgements; distinct_nontrivial = distinct networks + addresses judged.",
 		Assumptions: []string{"the reference block list is the one spelled out in the property; other table entries (IANA special registries) are exercised through the relations only"},
-		Setup:       setupCommon,
-		Once:        c19Once,
-		Cases:       func(c *mon.Ctx) int { return c.Pick(150000, 3000000) },
+		Setup: func(c *mon.Ctx) error {
+			c19Ctx = c
+			return setupCommon(c)
+		},
+		Once:  c19Once,
+		Cases: func(c *mon.Ctx) int { return c.Pick(150000, 3000000) },
 		RunCase: func(c *mon.Ctx, i int) {
 			rng := c.Rng(i, 0)
 			g := lint.GlobalRegistry()
@@ -289,7 +345,7 @@ func init() {
 				}
 				want := lint.Pass
 				for _, ip := range ips {
-					if util.IsIANAReserved(ip) {
+					if isRes(ip) {
 						want = lint.Error
 					}
 				}
@@ -299,7 +355,7 @@ func init() {
 				spec := gen.TLSLeaf(nb, "www.example.com")
 				spec.Subject = gen.Name(gen.A(gen.OIDC, "US"), gen.A(gen.OIDO, "Example Org"), gen.A(gen.OIDCN, ip.String()))
 				want := lint.Pass
-				if util.IsIANAReserved(ip) {
+				if isRes(ip) {
 					want = lint.Error
 				}
 				c19Lint(c, g, spec.DER(), "e_subject_contains_reserved_ip", want, "common name "+ip.String())
@@ -311,7 +367,7 @@ func init() {
 				payload := append(append([]byte{}, n.IP...), n.Mask...)
 				spec.Exts = append(spec.Exts, gen.ExtNC(true, []*der.Node{gen.Subtree(gen.GNIP(payload))}, nil))
 				want := lint.Pass
-				if util.IntersectsIANAReserved(n) {
+				if netInter(n) {
 					want = lint.Error
 				}
 				// and against the address test through witnesses
@@ -322,7 +378,7 @@ func init() {
 				name := arpaName(ip)
 				spec := gen.TLSLeaf(nb, "www.example.com", name)
 				want := lint.Pass
-				if util.IsIANAReserved(ip) {
+				if isRes(ip) {
 					want = lint.Error
 				}
 				c19Lint(c, g, spec.DER(), "e_subject_contains_reserved_arpa_ip", want, "dNSName "+name)
